@@ -18,7 +18,7 @@ RULE = ("cases: PD operators from the typed zoo (every PD class at the root, nes
         "oracle: backward error on the dense matrix with the tolerance of the path observed through the cg.* / chol.* hook events "
         "(direct: working precision x kappa; CG: configured tolerance + 1e-5 + 10 kappa eps, judged only when CG ended without "
         "NumericalWarning). harvested factors: CholLinearOperator(op.cholesky(upper), upper) around the factor object the library itself "
-        "returns (Kronecker-/block-triangular, diagonal ...) is solved as well. distinct key = (root class, path taken, rhs kind, left?, settings key, dtype) [round 5: 3/8 of the cases zero a column of the right-hand side (in every member or in one batch member only) or a row of the left factor]")
+        "returns (Kronecker-/block-triangular, diagonal ...) is solved as well. distinct key = (root class, path taken, rhs kind, left?, settings key, dtype) [round 5: 3/8 of the cases zero a column of the right-hand side (in every member or in one batch member only) or a row of the left factor] [round 6: 4% of the cases are hand-built well-conditioned structured operators at overall scales 1e-8 / 1e-4 / 1e4 (Kronecker + constant / general diagonal, Kronecker, dense + diagonal, low rank + diagonal, diagonal, Toeplitz), judged on the direct / eigen-structured routes only]")
 ASSUMPTIONS = ["torch.linalg.solve on the float64 dense matrix is the reference", "hook events decide which kernel ran",
                "CG runs that end with a NumericalWarning are inconclusive for the value clause"]
 REQUIRED_STATS = ("solves", "path:cg", "path:direct", "path:lanczos")
